@@ -31,7 +31,8 @@ Proof.
   destruct (previewable s w); cbn [negb]; [|split; reflexivity].
   destruct (is_active s (i_gid w)) eqn:Eact.
   - destruct (i_id w); cbn [fst]; split; reflexivity.
-  - assert (Hne : g <> i_gid w).
+  - cbn [negb andb]. destruct (i_collides w); [split; reflexivity|].
+    assert (Hne : g <> i_gid w).
     { intros ->. apply is_active_true in Ha. congruence. }
     destruct (i_id w); cbn [fst set_welcomes set_pw set_groups groups mls];
       (split; [apply gget_aset_other; exact Hne|reflexivity]).
@@ -62,7 +63,7 @@ Proof.
   destruct (previewable s w); cbn [negb]; [|auto].
   destruct (is_active s (i_gid w)) eqn:Eact.
   - destruct (i_id w); cbn [fst]; auto.
-  - intros [r [Hr Hact]].
+  - cbn [negb andb]. destruct (i_collides w); [auto|]. intros [r [Hr Hact]].
     assert (Hr' : aget N.eqb g (aset N.eqb (i_gid w) (mkG GS_PENDING (i_epoch w) (i_data w) None true) (groups s)) = Some r).
     { destruct (i_id w); exact Hr. }
     destruct (N.eqb_spec g (i_gid w)) as [->|Hne].
@@ -95,6 +96,7 @@ Proof.
     destruct (amem N.eqb id0 (welcomes s)) eqn:Em; [|discriminate].
     intros [= <- <-]. unfold process_welcome. rewrite Esh. cbn [negb]. rewrite Epw, Em. reflexivity.
   - destruct (previewable s w) eqn:Epv; cbn [negb]; [|discriminate].
+    destruct (negb (is_active s (i_gid w)) && i_collides w); [discriminate|].
     destruct (i_id w) as [id1|] eqn:Eid; [|discriminate].
     intros [= <- <-]. unfold process_welcome. rewrite Esh. cbn [negb].
     cbn [set_welcomes set_pw pwelcomes welcomes].
@@ -128,11 +130,12 @@ Proof.
   destruct (i_shape w); cbn [negb]; [|reflexivity].
   destruct (aget N.eqb (i_wrapper w) (pwelcomes s)) as [[[id|] [|]]|]; try reflexivity.
   destruct (previewable s w); cbn [negb]; [|reflexivity].
+  destruct (negb (is_active s (i_gid w)) && i_collides w); [reflexivity|].
   destruct (i_id w); [cbn [snd]; discriminate|intros _ H; contradiction].
 Qed.
 
 (* non-vacuity: a recipient active in group 1 with a last message; the same invitation replayed under a new wrapper id *)
-Definition ex_inv (wrapper : N) : invitation := mkInv wrapper (Some 10) true true 1 1 7 1 0.
+Definition ex_inv (wrapper : N) : invitation := mkInv wrapper (Some 10) true true 1 1 7 1 0 false.
 Definition ex_state : st :=
   let s0 := empty_st [(1, true)] in
   let s1 := fst (process_welcome s0 (ex_inv 1)) in
@@ -151,11 +154,11 @@ Proof. unfold welcome_example_statement. split; [eexists; split; [vm_compute; re
    joiner will be in - and accepting keeps them: the record of the joined group mirrors the MLS state joined *)
 Lemma invitation_refreshes_record s w id :
   i_shape w = true -> aget N.eqb (i_wrapper w) (pwelcomes s) = None -> previewable s w = true ->
-  is_active s (i_gid w) = false -> i_id w = Some id ->
+  is_active s (i_gid w) = false -> i_collides w = false -> i_id w = Some id ->
   let s1 := fst (process_welcome s w) in
   exists r, aget N.eqb (i_gid w) (groups s1) = Some r /\ g_state r = GS_PENDING /\ g_epoch r = i_epoch w /\ g_data r = i_data w.
 Proof.
-  intros Hs Hp Hv Ha Hid. unfold process_welcome. rewrite Hs, Hp, Hv, Ha, Hid. cbn [negb fst].
+  intros Hs Hp Hv Ha Hc Hid. unfold process_welcome. rewrite Hs, Hp, Hv, Ha, Hc, Hid. cbn [negb andb fst].
   exists (mkG GS_PENDING (i_epoch w) (i_data w) None true).
   cbn [groups set_welcomes set_pw set_groups]. rewrite gget_aset_same. repeat split; reflexivity.
 Qed.
@@ -184,4 +187,14 @@ Proof.
     + cbn [groups set_groups]. rewrite gget_aset_same. reflexivity.
     + rewrite E. exact Ea.
   - rewrite E. reflexivity.
+Qed.
+
+(* an invitation whose Nostr group id is already held by another stored group is refused without recording anything:
+   the routing of the group that holds the id cannot be taken over by an invitation *)
+Lemma colliding_invitation_no_effect s w :
+  i_shape w = true -> aget N.eqb (i_wrapper w) (pwelcomes s) = None -> previewable s w = true ->
+  is_active s (i_gid w) = false -> i_collides w = true ->
+  process_welcome s w = (s, WErr).
+Proof.
+  intros Hs Hp Hv Ha Hc. unfold process_welcome. rewrite Hs, Hp, Hv, Ha, Hc. reflexivity.
 Qed.
